@@ -1,6 +1,7 @@
 import NeumannModel.Graph.DeleteNode
 import NeumannModel.Graph.Query
 import NeumannModel.Graph.ConcOps
+import NeumannModel.Graph.Atomic
 /-
   C05 — property theorems for the graph store model.  ONLY property statements and their
   non-vacuity examples live here; helpers are in `Lemmas.lean`.
@@ -96,7 +97,7 @@ example : WF twoNodesEdgeS.kv ∧ neighbors twoNodesEdgeS.kv 1 .outgoing none = 
     degree twoNodesEdgeS.kv 1 = some 1 :=
   ⟨wf_of_any_history _, by decide, by decide⟩
 
-/-! ### concurrent: the full statement `QuiescentWF` is FALSE of the current step lists -/
+/-! ### concurrent: the adjacency-list read-modify-write is atomic (list lock, /repo 81b9c5b4) -/
 
 /-- two nodes 1, 2 created sequentially -/
 def twoNodes : St := applyAll St.empty [.createNode 0 0, .createNode 0 0]
@@ -106,18 +107,46 @@ def twoNodesEdge : St := applyAll St.empty [.createNode 0 0, .createNode 0 0, e1
 /-- nodes 1, 2 and two parallel directed edges 1, 2: 1→2 -/
 def twoNodesTwoEdges : St := applyAll St.empty [.createNode 0 0, .createNode 0 0, e12, e12]
 
-/-- Lost update on the adjacency list of a hub: two `create_edge(1,2)` both read `node:1:out`
-    (empty), both write it; edge 1 exists but node 1 does not list it. Schedule entries are
-    scheduler grants (thread index), the first grant of a thread is `thread.start`. -/
-theorem rmw_lost_update_witness :
-    ¬ QuiescentWF twoNodes [[e12], [e12]] := by
-  intro h
-  have hw := h [0, 1, 0, 1, 0, 1, 0, 1, 0, 1, 0, 1, 0, 0, 1, 1] (by decide)
-  have h1 := (hw.edge_listed 1 ⟨1, 2, true, 0, 0⟩ (by decide)).2.2.1
-  exact absurd h1 (by decide)
+/-- The true part of `QuiescentWF`.  Any number of threads, each running any list of `create_edge`
+    (any arguments: missing nodes, self-loops, parallel, undirected) and `delete_edge` operations,
+    from any reachable store: for EVERY interleaving of their store calls that the list locks
+    allow (a thread at the acquire of a held lock is not runnable; acquire / release are taken at
+    the latest / earliest point, which gives the model every interleaving of the real code, see
+    `Cfg.silent`), once all threads have finished the store is well-formed.  Several threads may
+    delete the same edge, create edges on the same hub, create and delete around the same lists.
+
+    Hypothesis on the operations (`Op.adm`): only `create_edge` and `delete_edge`, and a
+    `delete_edge(e)` names an id handed out BEFORE the concurrent phase (`e ≤ s0.ne`; the edge need
+    not exist).  Outside: node deletion and edge update (the two remaining witnesses below), and
+    deleting an edge whose `create_edge` has not returned yet (the id can only be guessed). -/
+theorem adjacency_rmw_atomic (s0 : St) (h : Inv s0) (programs : List (List Op))
+    (hadm : ∀ ops ∈ programs, ∀ op ∈ ops, op.adm s0.ne) : QuiescentWF s0 programs :=
+  quiescentWF_of_adm s0 h programs hadm
+
+/-- non-vacuity, and the regression form of the three fixed races: the thread sets of
+    `rmw_lost_update_witness` and `rmw_lost_removal_witness` satisfy the hypotheses -/
+example : QuiescentWF twoNodes [[e12], [e12]] :=
+  adjacency_rmw_atomic _ (wf_preserved _ _ inv_empty).1 _ (by simp [e12, Op.adm])
+
+example : QuiescentWF twoNodesTwoEdges [[.deleteEdge 1], [.deleteEdge 2]] :=
+  adjacency_rmw_atomic _ (wf_preserved _ _ inv_empty).1 _ (by
+    intro ops hops op hop
+    simp at hops; rcases hops with rfl | rfl <;> simp at hop <;> subst hop <;> simp only [Op.adm] <;> decide)
+
+/-- … and a complete interleaving of them exists: the OLD lost-update schedule is still a schedule
+    of the locked code up to the point where thread 1 meets the held lock (its grants there do
+    nothing), everything finishes and both edges are listed -/
+example : allFinished (runSched [[e12], [e12]]
+    [0, 1, 0, 1, 0, 1, 0, 1, 0, 1, 0, 0, 0, 1, 1, 1, 1] twoNodes).1 = true ∧
+    outL (runSched [[e12], [e12]] [0, 1, 0, 1, 0, 1, 0, 1, 0, 1, 0, 0, 0, 1, 1, 1, 1] twoNodes).2.kv 1 = [1, 2] := by
+  decide
+
+/-! ### concurrent: the full statement `QuiescentWF` is still FALSE -/
 
 /-- `create_edge(1,2)` checks that node 2 exists, `delete_node(2)` then runs to completion, then
-    the edge is written: edge 1 points to the deleted node 2 (and `node:2:in` is re-created). -/
+    the edge is written: edge 1 points to the deleted node 2 (and `node:2:in` is re-created).
+    Schedule entries are scheduler grants (thread index), the first grant of a thread is
+    `thread.start`. -/
 theorem create_edge_delete_node_race_witness :
     ¬ QuiescentWF twoNodes [[e12], [.deleteNode 2 []]] := by
   intro h
@@ -134,24 +163,35 @@ theorem update_edge_delete_edge_race_witness :
   have h1 := (hw.edge_listed 1 ⟨1, 2, true, 0, 9⟩ (by decide)).2.2.1
   exact absurd h1 (by decide)
 
-/-- Lost removal: `delete_edge(1)` and `delete_edge(2)` both read `node:1:out = [1,2]`, write
-    `[2]` resp. `[1]`: node 1 still lists the deleted edge 1. -/
+/-! ### regression witnesses: the code before the list lock (`Op.progOld`, `…Old` programs) -/
+
+/-- Lost update on the adjacency list of a hub, code before 81b9c5b4: two `create_edge(1,2)` both
+    read `node:1:out` (empty), both write it; edge 1 exists but node 1 does not list it. -/
+theorem rmw_lost_update_witness :
+    ¬ QuiescentWFOld twoNodes [[e12], [e12]] := by
+  intro h
+  have hw := h [0, 1, 0, 1, 0, 1, 0, 1, 0, 1, 0, 1, 0, 0, 1, 1] (by decide)
+  have h1 := (hw.edge_listed 1 ⟨1, 2, true, 0, 0⟩ (by decide)).2.2.1
+  exact absurd h1 (by decide)
+
+/-- Lost removal, code before 81b9c5b4: `delete_edge(1)` and `delete_edge(2)` both read
+    `node:1:out = [1,2]`, write `[2]` resp. `[1]`: node 1 still lists the deleted edge 1. -/
 theorem rmw_lost_removal_witness :
-    ¬ QuiescentWF twoNodesTwoEdges [[.deleteEdge 1], [.deleteEdge 2]] := by
+    ¬ QuiescentWFOld twoNodesTwoEdges [[.deleteEdge 1], [.deleteEdge 2]] := by
   intro h
   have hw := h [0, 1, 0, 1, 0, 1, 0, 1, 0, 0, 0, 1, 1, 1] (by decide)
   obtain ⟨r, hr, _⟩ := hw.out_sound 1 1 (by decide)
-  have hn : edgeAt (runSched [[Op.deleteEdge 1], [Op.deleteEdge 2]]
+  have hn : edgeAt (runSchedWith Op.progOld [[Op.deleteEdge 1], [Op.deleteEdge 2]]
       [0, 1, 0, 1, 0, 1, 0, 1, 0, 0, 0, 1, 1, 1] twoNodesTwoEdges).2.kv 1 = none := by decide
   rw [hn] at hr; exact absurd hr (by simp)
 
+/-- the two per-edge tasks that `delete_node(1)`'s >=100-edge path handed to the rayon pool for the
+    parallel edges 1, 2 : 1→2 before 81b9c5b4 (one iteration of `delNodeParLoopOld` each) -/
+def parTask (e : Nat) : Th := ⟨delNodeParLoopOld 1 [e] false (fun _ => .done .ok), fun _ => True, fun _ => True⟩
 
-/-- the two per-edge tasks that `delete_node(1)`'s >=100-edge path hands to the rayon pool for the
-    parallel edges 1, 2 : 1→2 (one iteration of `delNodeParLoop` each) -/
-def parTask (e : Nat) : Th := ⟨delNodeParLoop 1 [e] false (fun _ => .done .ok), fun _ => True, fun _ => True⟩
-
-/-- INSIDE one `delete_node` call (no second client thread): the pool tasks of two parallel edges
-    both read `node:2:in = [1,2]`, write `[2]` resp. `[1]`: node 2 still lists the deleted edge 1. -/
+/-- INSIDE one `delete_node` call (no second client thread), code before 81b9c5b4: the pool tasks
+    of two parallel edges both read `node:2:in = [1,2]`, write `[2]` resp. `[1]`: node 2 still
+    lists the deleted edge 1. -/
 theorem delete_node_parallel_path_lost_removal_witness :
     ¬ WF (runP [parTask 1, parTask 2] [0, 1, 0, 1, 0, 1, 0, 1] twoNodesTwoEdges).2.kv := by
   intro hw
@@ -160,19 +200,23 @@ theorem delete_node_parallel_path_lost_removal_witness :
     decide
   rw [hn] at hr; exact absurd hr (by simp)
 
-/-! ### concurrent: what DOES hold — operation sets with pairwise disjoint footprints -/
+/-! ### concurrent: operation sets with pairwise disjoint footprints (any operations) -/
 
-/-- PARTIAL form of `QuiescentWF`.  Threads are programs (lists of atomic store calls) with a
-    footprint `F` (keys read or written) and a write footprint `W ⊆ F`; if the write footprint of
-    every thread is disjoint from the footprint of every other thread (`Disjoint`), each thread
-    alone stays inside its footprint from the initial store (`Stays`) and alone preserves `WF` on
-    every store agreeing with the initial one on its footprint, then EVERY interleaving of the
-    atomic store calls that lets all threads finish ends in a well-formed store — in fact in the
-    store of the serial run (`disjoint_interleaving_serial`).
-    What is missing w.r.t. the full statement (which is false, see the witnesses above): operations
-    whose footprints overlap; the id allocation is outside the programs (ids are pre-assigned, the
-    engine's atomic counters hand out distinct fresh ids); one operation per thread. Footprint
-    facts are proved for `create_edge` and `delete_edge` (`createEdgeTh_ok`, `deleteEdgeTh_ok`). -/
+/-- PARTIAL form of `QuiescentWF` for operations OUTSIDE `adjacency_rmw_atomic` (node creation and
+    deletion, updates).  Threads are programs (lists of atomic steps) with a footprint `F` (keys read
+    or written) and a write footprint `W ⊆ F`; if the write footprint of every thread is disjoint
+    from the footprint of every other thread (`Disjoint`), each thread alone stays inside its
+    footprint from the initial store (`Stays`) and alone preserves `WF` on every store agreeing with
+    the initial one on its footprint, then EVERY interleaving of the atomic steps that lets all
+    threads finish ends in a well-formed store — in fact in the store of the serial run
+    (`disjoint_interleaving_serial`).  `runP` ignores the list locks, so it has every interleaving
+    of the locked code and more.
+    What is missing w.r.t. the full statement (which is false, see the two witnesses above):
+    operations whose footprints overlap and that are not `create_edge` / `delete_edge` (those are
+    covered without any footprint condition by `adjacency_rmw_atomic`); the id allocation is outside
+    the programs (ids are pre-assigned, the engine's atomic counters hand out distinct fresh ids);
+    one operation per thread. Footprint facts are proved for `create_edge` and `delete_edge`
+    (`createEdgeTh_ok`, `deleteEdgeTh_ok`). -/
 theorem quiescent_wf_partial (ts : List Th) (m0 : KV) (a b : Nat) (hwf : WF m0)
     (hst : ∀ (i : Nat) (t : Th), ts[i]? = some t → Stays t.F t.W t.p m0)
     (hsub : SubFW ts) (hdisj : Disjoint ts)
@@ -184,7 +228,7 @@ theorem quiescent_wf_partial (ts : List Th) (m0 : KV) (a b : Nat) (hwf : WF m0)
   exact serial_wf ts m0 hwf hst hsub hdisj hpres
 
 /-- four nodes; `create_edge(1,2)` (id 1, undirected) and `create_edge(3,4)` (id 2) touch disjoint
-    keys: every complete interleaving of their 5 + 9 store calls is well-formed -/
+    keys: every complete interleaving of their 17 + 9 steps is well-formed -/
 def fourNodes : St := applyAll St.empty [.createNode 0 0, .createNode 0 0, .createNode 0 0, .createNode 0 0]
 
 theorem disjoint_create_edges_wf (sched : List Nat)
@@ -222,14 +266,14 @@ theorem disjoint_create_edges_wf (sched : List Nat)
 /-- non-vacuity: a complete interleaving exists (alternating, then the rest of thread 0), and it is
     well-formed with both edges present -/
 example : (runP [createEdgeTh 1 1 2 false 0 0, createEdgeTh 2 3 4 true 0 0]
-    [0, 1, 0, 1, 0, 1, 0, 1, 0, 1, 0, 0, 0, 0] fourNodes).1.all Th.isDone = true := by decide
+    [0, 1, 0, 1, 0, 1, 0, 1, 0, 1, 0, 1, 0, 1, 0, 1, 0, 1, 0, 0, 0, 0, 0, 0, 0, 0] fourNodes).1.all Th.isDone = true := by decide
 
 example : WF (runP [createEdgeTh 1 1 2 false 0 0, createEdgeTh 2 3 4 true 0 0]
-    [0, 1, 0, 1, 0, 1, 0, 1, 0, 1, 0, 0, 0, 0] fourNodes).2.kv :=
+    [0, 1, 0, 1, 0, 1, 0, 1, 0, 1, 0, 1, 0, 1, 0, 1, 0, 1, 0, 0, 0, 0, 0, 0, 0, 0] fourNodes).2.kv :=
   disjoint_create_edges_wf _ (by
     intro t ht
     have h : (runP [createEdgeTh 1 1 2 false 0 0, createEdgeTh 2 3 4 true 0 0]
-      [0, 1, 0, 1, 0, 1, 0, 1, 0, 1, 0, 0, 0, 0] fourNodes).1.all Th.isDone = true := by decide
+      [0, 1, 0, 1, 0, 1, 0, 1, 0, 1, 0, 1, 0, 1, 0, 1, 0, 1, 0, 0, 0, 0, 0, 0, 0, 0] fourNodes).1.all Th.isDone = true := by decide
     exact List.all_eq_true.mp h t ht)
 
 end Neumann.Graph.Props
